@@ -415,3 +415,90 @@ Proof.
   exact (visits_fresh bs0 (check wf) (fun _ => True) I (fun _ _ _ _ => I)
            (fun c bs bs' f _ _ => check_init_irrelevant wf H c bs bs' f) h).
 Qed.
+
+(* ---- the evaluated laws are sound: a prediction assembled from the ORIGINAL declarations is what the walker
+   computes on the transformed file (decl_local + equivariant), for every tagging that passes the decl_eqb checks ---- *)
+Lemma opt_eqb_eq {A} (e : A -> A -> bool) : (forall x y, e x y = true -> x = y) -> forall a b, opt_eqb e a b = true -> a = b.
+Proof. intros H [x|] [y|]; simpl; intros E; try discriminate; auto. f_equal. auto. Qed.
+Lemma list_eqb_sound {A} (e : A -> A -> bool) : (forall x y, e x y = true -> x = y) -> forall a b, list_eqb e a b = true -> a = b.
+Proof.
+  intros H. induction a as [|x a IH]; intros [|y b]; simpl; intros E; try discriminate; auto.
+  apply andb_true_iff in E. destruct E as [E1 E2]. f_equal; auto.
+Qed.
+Lemma pk_eqb_sound : forall a b, pk_eqb a b = true -> a = b.
+Proof. intros [a1 a2] [b1 b2]. unfold pk_eqb. simpl. rewrite andb_true_iff, !N.eqb_eq. intros [-> ->]. reflexivity. Qed.
+Lemma beqb_sound : forall a b, Bool.eqb a b = true -> a = b.
+Proof. intros a b. apply Bool.eqb_prop. Qed.
+Lemma neqb_sound : forall a b, N.eqb a b = true -> a = b.
+Proof. intros a b. apply N.eqb_eq. Qed.
+Lemma seqb_sound : forall a b, String.eqb a b = true -> a = b.
+Proof. intros a b. apply String.eqb_eq. Qed.
+Lemma link_eqb_sound : forall a b, link_eqb a b = true -> a = b.
+Proof.
+  intros [i p n a] [i' p' n' a']. unfold link_eqb. simpl. rewrite !andb_true_iff, !N.eqb_eq.
+  intros [[[-> ->] H1] H2]. apply beqb_sound in H1. apply (opt_eqb_eq _ pk_eqb_sound) in H2. subst. reflexivity.
+Qed.
+Lemma stmt_eqb_sound : forall a b, stmt_eqb a b = true -> a = b.
+Proof.
+  intros [l e|p c|p g h|p w ks|t] [l' e'|p' c'|p' g' h'|p' w' ks'|t']; simpl; try discriminate; rewrite ?andb_true_iff.
+  - intros [H1 H2]. apply (list_eqb_sound _ link_eqb_sound) in H1. apply beqb_sound in H2. subst. reflexivity.
+  - intros [H1 H2]. apply neqb_sound in H1. apply (list_eqb_sound _ pk_eqb_sound) in H2. subst. reflexivity.
+  - intros [[H1 H2] H3]. apply neqb_sound in H1. apply beqb_sound in H2. apply (list_eqb_sound _ beqb_sound) in H3. subst. reflexivity.
+  - intros [[H1 H2] H3]. apply neqb_sound in H1. apply (opt_eqb_eq _ neqb_sound) in H2. apply (list_eqb_sound _ pk_eqb_sound) in H3. subst. reflexivity.
+Qed.
+Lemma comment_eqb_sound : forall a b, comment_eqb a b = true -> a = b.
+Proof.
+  intros [p c o] [p' c' o']. unfold comment_eqb. simpl. rewrite !andb_true_iff.
+  intros [[H1 H2] H3]. apply neqb_sound in H1. apply beqb_sound in H2. apply beqb_sound in H3. subst. reflexivity.
+Qed.
+Lemma decl_eqb_sound : forall a b, decl_eqb a b = true -> a = b.
+Proof.
+  intros [p ex r bd cs|p ns|p b] [p' ex' r' bd' cs'|p' ns'|p' b']; simpl; try discriminate; rewrite ?andb_true_iff.
+  - intros [[[[H1 H2] H3] H4] H5]. apply neqb_sound in H1. apply beqb_sound in H2. apply (opt_eqb_eq _ seqb_sound) in H3.
+    apply (opt_eqb_eq _ (list_eqb_sound _ stmt_eqb_sound)) in H4. apply (list_eqb_sound _ comment_eqb_sound) in H5. subst. reflexivity.
+  - intros [H1 H2]. apply neqb_sound in H1. apply (list_eqb_sound _ seqb_sound) in H2. subst. reflexivity.
+  - intros [H1 H2]. apply neqb_sound in H1. apply (list_eqb_sound _ stmt_eqb_sound) in H2. subst. reflexivity.
+Qed.
+
+Lemma unshift_shift k : forall ws, map (unshift_w k) (map (shift_w k) ws) = ws.
+Proof.
+  induction ws as [|[p t] r IH]; simpl; auto. rewrite IH. unfold unshift_w, shift_w. simpl.
+  replace (p + k - k)%N with p by lia. reflexivity.
+Qed.
+
+Section PredictSound.
+  Context {S : Type}.
+  Variable on_decl : S -> decl -> S * list warning.
+  Variable I : S -> Prop.
+  Hypothesis L : decl_local on_decl I.
+  Hypothesis E : equivariant on_decl shift_decl.
+  Variable s0 : S.
+  Hypothesis I0 : I s0.
+
+  Lemma predict_one_sound ds d' t ws : predict_one on_decl s0 ds d' t = Some ws -> snd (on_decl s0 d') = ws.
+  Proof.
+    unfold predict_one. destruct t as [i|]; [|intros H; injection H; auto].
+    destruct (nth_error ds (N.to_nat i)) as [d|]; [|discriminate].
+    destruct (decl_pos d <=? decl_pos d')%N.
+    - remember (decl_pos d' - decl_pos d)%N as k eqn:Hk. clear Hk.
+      destruct (decl_eqb (shift_decl k d) d') eqn:Q; [|discriminate].
+      apply decl_eqb_sound in Q. intros H. injection H as <-. rewrite <- Q. apply E.
+    - remember (decl_pos d - decl_pos d')%N as k eqn:Hk. clear Hk.
+      destruct (decl_eqb (shift_decl k d') d) eqn:Q; [|discriminate].
+      apply decl_eqb_sound in Q. intros H. injection H as <-. rewrite <- Q. rewrite E. symmetry. apply unshift_shift.
+  Qed.
+
+  Lemma predict_flat : forall ds ds' tags ws, predict on_decl s0 ds ds' tags = Some ws ->
+    flat_map (fun d => snd (on_decl s0 d)) ds' = ws.
+  Proof.
+    intros ds. induction ds' as [|d' r' IH]; intros [|t rt] ws; simpl; try discriminate.
+    - intros H. injection H; auto.
+    - destruct (predict_one on_decl s0 ds d' t) as [a|] eqn:P1; [|discriminate].
+      destruct (predict on_decl s0 ds r' rt) as [b|] eqn:P2; [|discriminate].
+      intros H. injection H as <-.
+      apply predict_one_sound in P1. rewrite (IH rt b P2), P1. reflexivity.
+  Qed.
+
+  Lemma predict_sound : forall ds ds' tags ws, predict on_decl s0 ds ds' tags = Some ws -> snd (walk on_decl s0 ds') = ws.
+  Proof. intros ds ds' tags ws H. rewrite (walk_flat on_decl I L s0 I0 ds' s0 I0). exact (predict_flat ds ds' tags ws H). Qed.
+End PredictSound.
